@@ -1,0 +1,9 @@
+//go:build verif
+
+package CFB8
+
+// VerifState returns a copy of the ring buffer and the position of the
+// current shift register in it. Used by the verification harness only.
+func (cf *CFB8) VerifState() (iv []byte, ivPos int) {
+	return append([]byte(nil), cf.iv...), cf.ivPos
+}
